@@ -45,7 +45,7 @@ def read_log(path, m):
     return [int(l) // m for l in open(path).read().split()]
 
 
-def make_proc_class(collective=False):
+def make_proc_class(collective=False, guarded=False):
     """collective=True: creating the results datasets is a collective operation (as under MPI with the parallel
     HDF5 driver): the first rank to arrive creates them, the others open them"""
     from pyUSID.processing.process import Process
@@ -73,6 +73,8 @@ def make_proc_class(collective=False):
                 'Results', data=np.full((self.h5_main.shape[0],), -1.0, dtype=np.float64))
 
         def _get_existing_datasets(self):
+            if guarded and self.h5_results_grp is None:
+                return          # (a class that guards the probing call the constructor makes before any group exists)
             self.h5_results = self.h5_results_grp['Results']
 
         def _write_results_chunk(self):
